@@ -338,7 +338,7 @@ func main() {
 				}
 				ok := true
 				for f := range featuresOf(&c) {
-					if !have[f] && !carriers[f] {
+					if !have[f] && !carriers[f] && !standInFeature[f] {
 						ok = false
 						break
 					}
@@ -486,7 +486,8 @@ func main() {
 	r.Finish("stage 1: one struct type per feature of the grammar (14 primitive kinds, pointer, slice, array, map, nested/empty/reused struct, 3 embedding forms, []byte, interface{}, time.Time, "+
 		"json.RawMessage, json.Number, omitempty, ',string' (effective and ignored), json:\"-\", json:\"-,\", untagged, name-less tag, names containing / ~ % space non-ASCII, duplicate names, unexported field, "+
 		"15 jsonschema-tag classes) and every compiled corpus type (self/mutual recursion through pointer, slice, map; list, tree, forest; a type used twice; generic instantiations) x 4 option sets "+
-		"(default, inline, $defs, nested). stage 2: seeded random compositions of feature subsets (reflect.StructOf, depth <= 5; quick 300 / thorough 5000 types) x 4 option sets; a failing composition is "+
+		"(default, inline, $defs, nested). stage 2: (a) every pair wrapper x inner type and field-level feature x type-level feature (710 types, deterministic), (b) seeded random compositions of feature "+
+		"subsets (reflect.StructOf, depth <= 5; quick 300 / thorough 5000 types), each x 4 option sets; a failing composition is "+
 		"re-tested without the fields carrying features that already fail alone and then minimised by delta debugging over fields, options and wrappers. Two generated values per type (small; boundary integers "+
 		"+-(2^53-1), non-ASCII strings), recursion cut at depth 2. Binding: 22 compiled types x value classes through a real Streamable server and library client; tools/list: the same types x 4 option sets "+
 		"(input and output schema) and 4 builder tools. A case is distinct by (stage, style, feature) in stage 1, by (style, number of features, struct depth) in stage 2, by (type, value class) for binding, "+
